@@ -6,6 +6,7 @@ use std::io::{BufRead, Write};
 use std::panic;
 
 mod text;
+mod ide_cmd;
 mod syntax_cmd;
 pub mod util;
 
@@ -17,7 +18,7 @@ fn dispatch(args: &[&str]) -> Option<String> {
     match args[0] {
         "lcall" | "posall" | "endcols" | "edit" | "editfull" | "semtok" => text::run(args),
         "lex" | "parse" | "parsestat" | "shape" | "lossless" => syntax_cmd::run(args),
-        _ => None,
+        _ => ide_cmd::run(args),
     }
 }
 
